@@ -432,6 +432,19 @@ class IntMapP:
         return IntMapP(self.keys, self.vals)
 
 
+class IntRowsP:
+    """dict[int, list[int]] whose values are fixed-length rows mutated in place: key set + array key -> (array index -> int)"""
+
+    __slots__ = ("keys", "vals", "rowlen")
+
+    def __init__(self, keys, vals, rowlen):
+        self.keys, self.vals, self.rowlen = keys, vals, rowlen
+
+    def copy(self):
+        return IntRowsP(self.keys, self.vals, self.rowlen)
+
+
+ROWS = z3.ArraySort(z3.IntSort(), z3.ArraySort(z3.IntSort(), z3.IntSort()))
 SEQ = z3.SeqSort(z3.IntSort())
 
 
